@@ -24,7 +24,7 @@ PY = os.path.join(ROOT, '.venv', 'bin', 'python')
 
 TIER_DEFAULTS = {
     'quick': {'budget_s': 120, 't_branch_ms': 5000, 't_claim_ms': 60000, 'max_paths': 3000},
-    'thorough': {'budget_s': 1500, 't_branch_ms': 20000, 't_claim_ms': 600000, 'max_paths': 50000, 'crosscheck': 25},
+    'thorough': {'budget_s': 400, 't_branch_ms': 10000, 't_claim_ms': 120000, 'max_paths': 50000, 'crosscheck': 25},
 }
 
 
